@@ -18,6 +18,7 @@ import ast
 from dataclasses import dataclass, field, replace
 
 from ..cfg import ENTRY, EXIT, RAISE, header_parts
+from ..flow import Defs, Scope
 from ..loader import AnalysisError, FuncInfo, dotted, norm, walk_no_nested
 from ..report import Ctx
 from ..selftest import Mutant
@@ -95,6 +96,27 @@ def _under_not_shared(node: ast.AST, par: dict[int, ast.AST]) -> bool:
 
 
 # ------------------------------------------------------------------------------ rule 1
+def _callers_hold_lock(ctx: Ctx, fn: FuncInfo, fields: list[str], seen: set[str]) -> tuple[bool, int, list[str]]:
+    """(all call sites hold the lock, number of sites, locations of sites that do not)."""
+    seen = seen | {fn.qualname}
+    sites = list(ctx.cg.call_sites_of(fn.qualname))
+    bad: list[str] = []
+    for s_ in sites:
+        par = _parents(s_.caller.node)
+        if _lock_region(s_.node, par) is not None or _under_not_shared(s_.node, par):
+            continue
+        caller = s_.caller
+        has_own_lock = any(isinstance(w, ast.With) and any(_self_attr(i.context_expr) == LOCK for i in w.items) for w in ast.walk(caller.node))
+        if not has_own_lock and caller.qualname not in seen and caller.cls is fn.cls and caller.name.startswith("_") and not caller.name.startswith("__"):
+            ok, n, b = _callers_hold_lock(ctx, caller, fields, seen)
+            if ok and n:
+                continue
+            bad += b or [s_.loc]
+            continue
+        bad.append(s_.loc)
+    return bool(sites) and not bad, len(sites), bad
+
+
 def rule_lock(ctx: Ctx) -> None:
     n = 0
     for cname, fields in SHARED.items():
@@ -118,13 +140,13 @@ def rule_lock(ctx: Ctx) -> None:
                 ctx.add("1-lock", fn, fn.node, True, f"{len(locked)} accesses inside one lock region", key=f"def {mname}")
                 continue
             if not locked:
-                # helper without a lock of its own: every call site must hold the lock
-                sites = [s for s in ctx.cg.call_sites_of(fn.qualname)]
-                bad = [s for s in sites if _lock_region(s.node, _parents(s.caller.node)) is None]
-                ok = bool(sites) and not bad
-                ctx.add("1-lock", fn, fn.node, ok,
-                        f"{len(outside)} unlocked accesses; {'all' if ok else 'not all'} {len(sites)} call site(s) hold self.{LOCK}"
-                        + ("" if ok else f"; unlocked caller(s): {[s.loc for s in bad] or 'none found'}"), key=f"def {mname}")
+                # helper without a lock of its own: every call site must hold the lock (directly, or because the caller
+                # is itself such a helper whose call sites all hold it)
+                ok, n_sites, bad = _callers_hold_lock(ctx, fn, fields, set())
+                ctx.tri("1-lock", fn, fn.node, ok, bool(bad),
+                        f"{len(outside)} unlocked accesses; all {n_sites} call site(s) hold self.{LOCK}",
+                        f"{len(outside)} unlocked accesses and the call site(s) {bad} do not hold self.{LOCK}",
+                        "no call site of this helper was found", key=f"def {mname}")
                 continue
             first = outside[0] if outside else locked[0]
             ctx.add("1-lock", fn, first, False,
@@ -200,6 +222,27 @@ class Interp:
         """Possible truth values of `test` with the refined state."""
         if isinstance(test, ast.UnaryOp) and isinstance(test.op, ast.Not):
             return [(not v, s) for v, s in self.cond(test.operand, st)]
+        if isinstance(test, ast.Name):
+            known = dict(st.alias).get(test.id, "")
+            if known in ("bool:True", "bool:False"):
+                return [(known == "bool:True", st)]
+        if isinstance(test, ast.BoolOp):
+            is_and = isinstance(test.op, ast.And)
+
+            def go(i: int, s0: St) -> list[tuple[bool, St]]:
+                if i == len(test.values):
+                    return [(is_and, s0)]
+                outs: list[tuple[bool, St]] = []
+                for v, s1 in self.cond(test.values[i], s0):
+                    if is_and and not v:
+                        outs.append((False, s1))
+                    elif not is_and and v:
+                        outs.append((True, s1))
+                    else:
+                        outs += go(i + 1, s1)
+                return outs
+
+            return go(0, st)
         if isinstance(test, ast.Compare) and len(test.ops) == 1:
             op, left, right = test.ops[0], test.left, test.comparators[0]
             c = self._cont(right)
@@ -278,6 +321,9 @@ class Interp:
                     return self._pop_front(st, t.id), []
                 if isinstance(v, ast.Call) and dotted(v.func) in ("min", "max"):
                     return self._select_existing(st, t.id), []
+                if isinstance(v, (ast.Compare, ast.BoolOp)) or (isinstance(v, ast.UnaryOp) and isinstance(v.op, ast.Not)):
+                    # a named condition: remember its truth value along each path (it was evaluated in THIS state)
+                    return [replace(s1, alias=tuple(sorted({**dict(s1.alias), t.id: f"bool:{truth}"}.items()))) for truth, s1 in self.cond(v, st)], []
                 st = replace(st, alias=tuple(sorted({**dict(st.alias), t.id: norm(v)}.items())))
                 self._scan_expr(v, st)
                 return [st], []
@@ -444,9 +490,7 @@ def rule_invariant(ctx: Ctx) -> None:
         model = Model(cname, "_cache_dict", fields, queue)
         model.helpers = {n: f for n, f in cls.methods.items() if n.startswith("_") and not n.startswith("__") and _accesses(f, fields)}
         for mname in ("put", "get", "clear", "__contains__", "__len__"):
-            fn = cls.methods.get(mname)
-            if fn is None:
-                raise AnalysisError(f"{cname}.{mname} not found")
+            fn = cls.methods[mname]
             params = [p for p in fn.param_names() if p != "self"]
             key = params[0] if params and mname in ("put", "get", "__contains__") else None
             entries: list[tuple[str, St]] = []
@@ -502,36 +546,57 @@ def rule_invariant(ctx: Ctx) -> None:
 
 
 # ------------------------------------------------------------------------------ rule 3
+def _queue_calls(sc: Scope, cont: str, *meths: str) -> list[ast.Call]:
+    return [n for _f, n in sc.walk() if isinstance(n, ast.Call) and isinstance(n.func, ast.Attribute) and n.func.attr in meths and _self_attr(n.func.value) == cont]
+
+
+def _selected_then_destroyed(sc: Scope, how: tuple[str, ...]) -> list[tuple[str, ast.Call]]:
+    """(selector, call) for `v = min|max(...)` whose `v` is then deleted from a container / unlinked."""
+    out = []
+    for f, n in sc.walk():
+        if isinstance(n, ast.Assign) and len(n.targets) == 1 and isinstance(n.targets[0], ast.Name) and isinstance(n.value, ast.Call) and dotted(n.value.func) in ("min", "max"):
+            v = n.targets[0].id
+            used = any(
+                (isinstance(x, ast.Delete) and any(isinstance(t, ast.Subscript) and norm(t.slice) == v for t in x.targets))
+                or (isinstance(x, ast.Call) and isinstance(x.func, ast.Attribute) and x.func.attr in how and (norm(x.func.value) == v or any(norm(a) == v for a in x.args)))
+                for x in ast.walk(f.node))
+            if used:
+                out.append((dotted(n.value.func), n.value))
+    return out
+
+
 def rule_policy(ctx: Ctx) -> None:
     lru = ctx.prog.cls(f"{MOD}.LRUCache")
     put, get = lru.methods["put"], lru.methods["get"]
-    pops = [n for n in walk_no_nested(put.node) if isinstance(n, ast.Call) and isinstance(n.func, ast.Attribute) and n.func.attr == "pop" and _self_attr(n.func.value) == "_cache_queue"]
-    ok = bool(pops) and all(len(p.args) == 1 and isinstance(p.args[0], ast.Constant) and p.args[0].value == 0 for p in pops)
-    ctx.add("3-policy", put, pops[0] if pops else put.node, ok, "LRU evicts the front of the queue (pop(0))" if ok else "eviction does not take queue.pop(0): not the least recently used key",
-            key="lru-evict-front")
-    apps = [n for n in walk_no_nested(put.node) if isinstance(n, ast.Call) and isinstance(n.func, ast.Attribute) and n.func.attr in ("append", "insert") and _self_attr(n.func.value) == "_cache_queue"]
-    ok = bool(apps) and all(a.func.attr == "append" for a in apps)  # type: ignore[union-attr]
-    ctx.add("3-policy", put, apps[0] if apps else put.node, ok, "put places the key at the back of the queue" if ok else "put does not append the key at the back", key="lru-put-back")
-    # get: remove(key) then append(key), same key, append after remove
-    calls = [n for n in walk_no_nested(get.node) if isinstance(n, ast.Call) and isinstance(n.func, ast.Attribute) and _self_attr(n.func.value) == "_cache_queue"]
-    rem = [c for c in calls if c.func.attr == "remove"]  # type: ignore[union-attr]
-    app = [c for c in calls if c.func.attr == "append"]  # type: ignore[union-attr]
-    ok = bool(rem) and bool(app) and norm(rem[0].args[0]) == norm(app[0].args[0]) and (rem[0].lineno, rem[0].col_offset) < (app[0].lineno, app[0].col_offset)
-    ctx.add("3-policy", get, (rem or app or [get.node])[0], ok, "get moves the key to the back (remove + append)" if ok else "get does not move the accessed key to the back of the queue", key="lru-get-moves-back")
+    psc, gsc = Scope(ctx, put), Scope(ctx, get)
+    pops = _queue_calls(psc, "_cache_queue", "pop")
+    front = [p for p in pops if len(p.args) == 1 and isinstance(p.args[0], ast.Constant) and p.args[0].value == 0]
+    other = [p for p in pops if p not in front and (not p.args or isinstance(p.args[0], ast.Constant))]
+    ctx.tri("3-policy", put, (other or front or [put.node])[0], bool(front) and not other, bool(other), "LRU evicts the front of the queue (pop(0))",
+            f"eviction takes `{norm(other[0]) if other else ''}` - not the front of the queue, i.e. not the least recently used key", "no queue.pop(...) found in put", key="lru-evict-front")
+    apps, ins = _queue_calls(psc, "_cache_queue", "append"), _queue_calls(psc, "_cache_queue", "insert")
+    ctx.tri("3-policy", put, (ins or apps or [put.node])[0], bool(apps) and not ins, bool(ins), "put places the key at the back of the queue",
+            "put inserts the key somewhere other than the back of the queue", "no queue.append found in put", key="lru-put-back")
+    rem, app = _queue_calls(gsc, "_cache_queue", "remove"), _queue_calls(gsc, "_cache_queue", "append")
+    same = bool(rem) and bool(app) and norm(rem[0].args[0]) == norm(app[0].args[0]) and (rem[0].lineno, rem[0].col_offset) < (app[0].lineno, app[0].col_offset)
+    ctx.tri("3-policy", get, (rem or app or [get.node])[0], same, not app, "get moves the key to the back (remove + append)",
+            "get never appends the accessed key to the back of the queue: a hit does not refresh recency (FIFO, not LRU)", "remove/append on the queue not in the recognised order", key="lru-get-moves-back")
     hyb = ctx.prog.cls(f"{MOD}.HybridCache")
-    exp = hyb.methods.get("_expire") or hyb.methods["put"]
-    sel = [n for n in ast.walk(exp.node) if isinstance(n, ast.Call) and dotted(n.func) in ("min", "max", "sorted")]
-    ok = len(sel) == 1 and dotted(sel[0].func) == "min"
-    ctx.add("3-policy", exp, sel[0] if sel else exp.node, ok, "Hybrid evicts the entry with the lowest score (min)" if ok else "Hybrid eviction does not select min(score)", key="hybrid-evict-min")
+    hsc = Scope(ctx, hyb.methods["put"])
+    sel = _selected_then_destroyed(hsc, ("pop",))
+    ctx.tri("3-policy", hyb.methods["put"], sel[0][1] if sel else hyb.methods["put"].node, bool(sel) and all(k == "min" for k, _ in sel), any(k == "max" for k, _ in sel),
+            "Hybrid evicts the entry with the lowest score (min)", "Hybrid eviction deletes the entry selected by max(score): the most valuable entry is dropped", "no min()/max() selection feeding a delete found", key="hybrid-evict-min")
     disk = ctx.prog.cls(f"{MOD}.DiskCache")
     ev = disk.methods["_evict_if_needed"]
-    sel = [n for n in ast.walk(ev.node) if isinstance(n, ast.Call) and dotted(n.func) in ("min", "max", "sorted")]
-    ok = len(sel) == 1 and dotted(sel[0].func) == "min" and "st_ctime" in ast.unparse(sel[0])
-    ctx.add("3-policy", ev, sel[0] if sel else ev.node, ok, "Disk evicts the oldest file (min by st_ctime)" if ok else "Disk eviction does not select min by creation time", key="disk-evict-oldest")
-    # get() increments the access count of the key it returns (Hybrid)
-    hget = hyb.methods["get"]
-    inc = [n for n in walk_no_nested(hget.node) if isinstance(n, ast.AugAssign) and isinstance(n.op, ast.Add) and isinstance(n.target, ast.Subscript) and _self_attr(n.target.value) == "_access_counts"]
-    ctx.add("3-policy", hget, inc[0] if inc else hget.node, bool(inc), "Hybrid get counts the access" if inc else "Hybrid get no longer increments the access count", key="hybrid-get-counts")
+    dsc = Scope(ctx, ev)
+    sel = _selected_then_destroyed(dsc, ("unlink", "remove"))
+    by_time = "st_ctime" in dsc.text() or "st_mtime" in dsc.text()
+    ctx.tri("3-policy", ev, sel[0][1] if sel else ev.node, bool(sel) and all(k == "min" for k, _ in sel) and by_time, any(k == "max" for k, _ in sel),
+            "Disk evicts the oldest file (min by change time)", "Disk eviction unlinks the file selected by max(...): the newest entry is dropped", "no min()/max() by file time feeding unlink found", key="disk-evict-oldest")
+    # get() records the access of the key it returns (Hybrid)
+    hget = Scope(ctx, hyb.methods["get"])
+    writes = [n for _f, n in hget.walk() if isinstance(n, (ast.AugAssign, ast.Assign)) and any(isinstance(t, ast.Subscript) and _self_attr(t.value) == "_access_counts" for t in ([n.target] if isinstance(n, ast.AugAssign) else n.targets))]
+    ctx.add("3-policy", hyb.methods["get"], writes[0] if writes else hyb.methods["get"].node, bool(writes), "Hybrid get counts the access" if writes else "Hybrid get never updates self._access_counts: access frequency is not tracked", key="hybrid-get-counts")
 
 
 # ------------------------------------------------------------------------------ rule 4
@@ -603,54 +668,104 @@ def rule_division(ctx: Ctx) -> None:
 def rule_pickle_guard(ctx: Ctx) -> None:
     fn = ctx.prog.func(f"{MOD}._CacheBase.__getstate__")
     cfg = ctx.cfg(fn)
+    d = Defs(fn)
     rets = cfg.nodes(lambda s: isinstance(s, ast.Return))
-    guards = set(cfg.nodes(lambda s: isinstance(s, ast.If) and "shared" in ast.unparse(s.test)))
+    guards = set(cfg.nodes(lambda s: isinstance(s, ast.If) and "shared" in norm(d.resolve(s.test))))
     raises = cfg.nodes(lambda s: isinstance(s, ast.Raise))
-    ok = bool(rets) and bool(raises) and all(any(cfg.dominates(g, r) for g in guards) for r in rets) and RAISE in cfg.reachable_from(ENTRY)
-    ctx.add("6-pickle-guard", fn, fn.node, ok, "state is returned only under a test of `shared`, otherwise raises" if ok else "__getstate__ no longer refuses to pickle non-shared caches", key="getstate-guard")
+    good = bool(rets) and bool(raises) and all(any(cfg.dominates(g, r) for g in guards) for r in rets) and RAISE in cfg.reachable_from(ENTRY)
+    unguarded = [r for r in rets if not any(cfg.dominates(g, r) for g in guards)]
+    ctx.tri("6-pickle-guard", fn, cfg.stmt[unguarded[0]] if unguarded else fn.node, good, bool(unguarded) or not raises,
+            "state is returned only under a test of `shared`, otherwise raises", "__getstate__ returns the state on a path that does not test `shared` (or never raises): non-shared caches are pickled silently", key="getstate-guard")
 
 
 def rule_disk_bound(ctx: Ctx) -> None:
     fn = ctx.prog.func(f"{MOD}.DiskCache.put")
     cfg = ctx.cfg(fn)
-    ev = set(cfg.nodes(lambda s: isinstance(s, ast.Expr) and isinstance(s.value, ast.Call) and norm(s.value.func) == "self._evict_if_needed"))
+    ev = set(cfg.nodes(lambda s: any(isinstance(c, ast.Call) and norm(c.func) == "self._evict_if_needed" for part in header_parts(s) for c in ast.walk(part))))
     ok = bool(ev) and cfg.must_pass(ENTRY, EXIT, ev, normal_only=True)
-    ctx.add("7-disk-bound", fn, fn.node, ok, "every normal path of DiskCache.put reaches _evict_if_needed" if ok else "a path through DiskCache.put skips _evict_if_needed (len may exceed max_size)", key="disk-put-evicts")
+    wp = None if ok else cfg.witness_path(ENTRY, EXIT, ev)
+    ctx.add("7-disk-bound", fn, fn.node, ok, "every normal path of DiskCache.put reaches _evict_if_needed" if ok else "a path through DiskCache.put skips _evict_if_needed (len may exceed max_size)", key="disk-put-evicts",
+            path=cfg.describe(wp, fn.module.relpath) if wp else None)
     ev_fn = ctx.prog.func(f"{MOD}.DiskCache._evict_if_needed")
-    rng = [n for n in ast.walk(ev_fn.node) if isinstance(n, ast.Call) and dotted(n.func) == "range"]
-    ok = bool(rng) and norm(rng[0].args[0]).replace(" ", "") in ("len(files)-self.max_size",)
-    ctx.add("7-disk-bound", ev_fn, rng[0] if rng else ev_fn.node, ok, "evicts len(files) - max_size files" if ok else "the number of evicted files is no longer len(files) - max_size", key="disk-evict-count")
+    d = Defs(ev_fn)
+    par = _parents(ev_fn.node)
+    unlinks = [c for c in ast.walk(ev_fn.node) if isinstance(c, ast.Call) and isinstance(c.func, ast.Attribute) and c.func.attr == "unlink"]
+    rng = [n for n in ast.walk(ev_fn.node) if isinstance(n, ast.Call) and dotted(n.func) == "range" and n.args]
+    txt = norm(d.resolve(rng[0].args[0])).replace(" ", "") if rng else ""
+    import re as _re
+
+    good = bool(rng) and _re.fullmatch(r"len\(.+\)-self\.max_size", txt) is not None
+
+    def in_loop(n: ast.AST) -> bool:
+        x = n
+        while id(x) in par:
+            x = par[id(x)]
+            if isinstance(x, (ast.For, ast.While)):
+                return True
+        return False
+
+    once = [u for u in unlinks if not in_loop(u)]
+    ctx.tri("7-disk-bound", ev_fn, (once or rng or [ev_fn.node])[0], good and not once, bool(once),
+            "evicts len(files) - max_size files", "at most one file is unlinked per call (no loop): a directory that is over the bound by more than one file stays over it",
+            f"eviction count `{txt}` not recognised", key="disk-evict-count")
+
+
+def _value_flows(d: Defs, e: ast.AST, param: str) -> bool:
+    return any(isinstance(x, ast.Name) and x.id == param for x in ast.walk(d.resolve(e)))
 
 
 def rule_stores(ctx: Ctx) -> None:
     """put() stores the value it was given on every normal path (a re-put must overwrite)."""
-    for cname, stmt_ok in (("LRUCache", "self._cache_dict[key] = value"), ("HybridCache", "self._cache_dict[key] = value"), ("SimpleCache", "self._cache_dict[key] = value")):
+    for cname in ("LRUCache", "HybridCache", "SimpleCache"):
         fn = ctx.prog.cls(f"{MOD}.{cname}").methods["put"]
+        params = [p for p in fn.param_names() if p != "self"]
+        key, value = params[0], params[1]
         cfg = ctx.cfg(fn)
-        stores = set(cfg.nodes(lambda s: isinstance(s, ast.Assign) and norm(s) == stmt_ok))
-        ok = bool(stores) and cfg.must_pass(ENTRY, EXIT, stores, normal_only=True)
+        d = Defs(fn)
+        stores = set(cfg.nodes(lambda s: isinstance(s, ast.Assign) and any(isinstance(t, ast.Subscript) and _self_attr(t.value) == "_cache_dict" and norm(t.slice) == key for t in s.targets)))
+        if not stores:
+            anywhere = [n for _f, n in Scope(ctx, fn).walk() if isinstance(n, ast.Assign) and any(isinstance(t, ast.Subscript) and _self_attr(t.value) == "_cache_dict" for t in n.targets)]
+            ctx.tri("8-stores", fn, fn.node, False, not anywhere, "", f"{cname}.put never stores into self._cache_dict", "the store happens in a helper; path coverage not decided", key=f"{cname}.put stores")
+            continue
+        ok = cfg.must_pass(ENTRY, EXIT, stores, normal_only=True)
         wp = None if ok else cfg.witness_path(ENTRY, EXIT, stores)
-        ctx.add("8-stores", fn, fn.node, ok, "every normal path of put() stores the given value under the key" if ok else
+        ctx.add("8-stores", fn, fn.node, ok, "every normal path of put() stores under the key" if ok else
                 f"a path through {cname}.put returns without storing the value: `key in cache` holds but get() returns an older value", key=f"{cname}.put stores", path=cfg.describe(wp, fn.module.relpath) if wp else None)
+        flows = all(_value_flows(d, cfg.stmt[n].value, value) for n in stores)
+        ctx.tri("8-stores", fn, cfg.stmt[sorted(stores)[0]], flows, False, f"the stored object is derived from `{value}`", "", f"the stored expression does not mention `{value}` after following local definitions", key=f"{cname}.put value")
     dp = ctx.prog.func(f"{MOD}.DiskCache.put")
+    params = [p for p in dp.param_names() if p != "self"]
+    key, value = params[0], params[1]
     cfg = ctx.cfg(dp)
-    w = set(cfg.nodes(lambda s: isinstance(s, ast.Expr) and isinstance(s.value, ast.Call) and dotted(s.value.func) in ("cloudpickle.dump", "pickle.dump") and norm(s.value.args[0]) == "value"))
+    cls = ctx.prog.cls(f"{MOD}.DiskCache")
+
+    def writes(s: ast.AST) -> bool:
+        for part in header_parts(s):
+            for c in ast.walk(part):
+                if not isinstance(c, ast.Call):
+                    continue
+                if dotted(c.func) in ("cloudpickle.dump", "pickle.dump"):
+                    return True
+                h = _self_attr(c.func)
+                if h and h in cls.methods and any(isinstance(x, ast.Call) and dotted(x.func) in ("cloudpickle.dump", "pickle.dump") for x in ast.walk(cls.methods[h].node)):
+                    return True
+        return False
+
+    w = set(cfg.nodes(writes))
     ok = bool(w) and cfg.must_pass(ENTRY, EXIT, w, normal_only=True)
-    ctx.add("8-stores", dp, dp.node, ok, "DiskCache.put writes the value to its file on every path" if ok else "DiskCache.put can return without writing the value", key="DiskCache.put stores")
+    wp = None if ok else cfg.witness_path(ENTRY, EXIT, w)
+    ctx.add("8-stores", dp, dp.node, ok, "DiskCache.put pickles the value to its file on every path" if ok else "DiskCache.put can return without writing the value", key="DiskCache.put stores",
+            path=cfg.describe(wp, dp.module.relpath) if wp else None)
     lp = [c for c in ast.walk(dp.node) if isinstance(c, ast.Call) and norm(c.func) == "self.lru_cache.put"]
-    ok = bool(lp) and [norm(a) for a in lp[0].args] == ["key", "value"]
-    ctx.add("8-stores", dp, lp[0] if lp else dp.node, ok, "the in-memory LRU of a DiskCache is updated with the same value" if ok else "DiskCache.put does not refresh its in-memory LRU with the new value", key="DiskCache.put lru")
+    d = Defs(dp)
+    same = bool(lp) and [norm(d.resolve(a)) for a in lp[0].args] == [key, value]
+    ctx.tri("8-stores", dp, lp[0] if lp else dp.node, same, not lp, "the in-memory LRU of a DiskCache is updated with the same value",
+            "DiskCache.put never refreshes its in-memory LRU: get() keeps returning the previous value", "arguments of self.lru_cache.put not recognised", key="DiskCache.put lru")
 
 
 def check(ctx: Ctx) -> None:
-    rule_stores(ctx)
-    rule_lock(ctx)
-    rule_invariant(ctx)
-    rule_policy(ctx)
-    rule_retire(ctx)
-    rule_division(ctx)
-    rule_pickle_guard(ctx)
-    rule_disk_bound(ctx)
+    for rule in (rule_stores, rule_lock, rule_invariant, rule_policy, rule_retire, rule_division, rule_pickle_guard, rule_disk_bound):
+        ctx.run(rule)
 
 
 # ------------------------------------------------------------------------------ self-test corpus
